@@ -70,6 +70,7 @@ type interpreter struct {
 	summ        *summCtx
 	pathReach   map[string]int
 	inInit      bool
+	panicStack  []string
 	frozenNames []string
 	frozenMaps  []*amap
 	mapOrderFns map[string]bool
@@ -502,6 +503,15 @@ func loc(fset *token.FileSet, pos token.Pos) string {
 // callSSA interprets a call to function fn with arguments args,
 // and lexical environment env, returning its result.
 func callSSA(i *interpreter, caller *frame, callpos token.Pos, fn *ssa.Function, args []value, env []value) value {
+	return callSSAx(i, caller, callpos, fn, args, env, false)
+}
+
+// interpretSelf runs the real body of the function an intrinsic stands for.
+func (fr *frame) interpretSelf(args []value) value {
+	return callSSAx(fr.i, fr.caller, token.NoPos, fr.fn, args, nil, true)
+}
+
+func callSSAx(i *interpreter, caller *frame, callpos token.Pos, fn *ssa.Function, args []value, env []value, skipIntrinsic bool) value {
 	fr := &frame{
 		i:      i,
 		caller: caller, // for panic/recover
@@ -512,7 +522,7 @@ func callSSA(i *interpreter, caller *frame, callpos token.Pos, fn *ssa.Function,
 		if ov, ok := i.overrides[name]; ok {
 			return call(i, caller, callpos, ov, args)
 		}
-		if in := intrinsics[name]; in != nil {
+		if in := intrinsics[name]; in != nil && !skipIntrinsic {
 			return in(fr, args)
 		}
 		if fn.Pkg != nil && fn.Name() == "init" && fn.Synthetic != "" {
@@ -546,7 +556,18 @@ func callSSA(i *interpreter, caller *frame, callpos token.Pos, fn *ssa.Function,
 		panic(budgetExceeded{fmt.Sprintf("call depth %d exceeded in %s", i.cfg.MaxDepth, fn)})
 	}
 	i.curFn = append(i.curFn, fn)
-	defer func() { i.depth--; i.curFn = i.curFn[:len(i.curFn)-1] }()
+	defer func() {
+		if r := recover(); r != nil {
+			if i.panicStack == nil {
+				i.panicStack = i.stack()
+			}
+			i.depth--
+			i.curFn = i.curFn[:len(i.curFn)-1]
+			panic(r)
+		}
+		i.depth--
+		i.curFn = i.curFn[:len(i.curFn)-1]
+	}()
 
 	fr.env = make(map[ssa.Value]value)
 	fr.block = fn.Blocks[0]
@@ -626,6 +647,7 @@ func doRecover(caller *frame) value {
 	if caller != nil && !caller.panicking &&
 		caller.caller != nil && caller.caller.panicking {
 		caller.caller.panicking = false
+		caller.i.panicStack = nil
 		p := caller.caller.panic
 		caller.caller.panic = nil
 
@@ -654,7 +676,7 @@ func newInterpreter(cfg *Config) *interpreter {
 		globals:   make(map[*ssa.Global]*value),
 		sizes:     &types.StdSizes{WordSize: 8, MaxAlign: 8},
 		cfg:       cfg,
-		tt:        NewTermTab(),
+		tt:        NewTermTab(cfg.reg),
 		reach:     map[string]int{},
 		stubsHit:  map[string]int{},
 		initOnce:  map[*value]bool{},
